@@ -38,9 +38,12 @@ CfgDims == [
   maxIAT |-> {0, 30},
   maxAge |-> {0, 60},
   nonce  |-> {"default", "n1", "nil"},   \* default: func returning "" ; nil: no nonce check
-  acr    |-> {"nil", "allowed"} ]
+  acr    |-> {"nil", "allowed"},
+  \* how the verifier is obtained: rp.NewIDTokenVerifier with the options, or rp.NewRelyingPartyOIDC(WithVerifierOpts(options...),
+  \* WithSigningAlgsFromDiscovery()).IDTokenVerifier() against a discovery document
+  via    |-> {"direct", "rpOIDC"} ]
 
-Cfgs == [offset : CfgDims.offset, maxIAT : CfgDims.maxIAT, maxAge : CfgDims.maxAge, nonce : CfgDims.nonce, acr : CfgDims.acr]
+Cfgs == [offset : CfgDims.offset, maxIAT : CfgDims.maxIAT, maxAge : CfgDims.maxAge, nonce : CfgDims.nonce, acr : CfgDims.acr, via : CfgDims.via]
 
 \* the token that is valid, with margin, under configuration cfg
 Base(cfg) == [iss |-> "ok", sub |-> "present", aud |-> "cid", azp |-> "absent", exp |-> 3600, iat |-> -3, auth |-> -3,
@@ -54,14 +57,16 @@ Depth == IF Tier = "quick" THEN 2 ELSE 3
 Toks(cfg) == LET d1 == Dev1({Base(cfg)})  d2 == Dev1(d1) IN IF Depth = 2 THEN d2 ELSE Dev1(d2)
 
 \* thorough: depth-3 deviations only around the default configuration and its single-dimension deviations
-BaseCfg == [offset |-> 1, maxIAT |-> 30, maxAge |-> 60, nonce |-> "n1", acr |-> "allowed"]
+BaseCfg == [offset |-> 1, maxIAT |-> 30, maxAge |-> 60, nonce |-> "n1", acr |-> "allowed", via |-> "direct"]
 NearCfgs == {BaseCfg} \cup UNION {{[BaseCfg EXCEPT ![f] = v] : v \in CfgDims[f]} : f \in DOMAIN CfgDims}
-              \cup {[offset |-> 1, maxIAT |-> 0, maxAge |-> 0, nonce |-> "default", acr |-> "nil"]}
+              \cup {[offset |-> 1, maxIAT |-> 0, maxAge |-> 0, nonce |-> "default", acr |-> "nil", via |-> "direct"]}
 
 Groups == Cfgs
 CasesOf(cfg) ==
   LET d1 == Dev1({Base(cfg)})  d2 == Dev1(d1)
-      ts == IF Tier = "quick" \/ cfg \notin NearCfgs THEN d2 ELSE Dev1(d2) IN
+      \* verifiers obtained through the relying-party constructor: the single-dimension deviations (quick), two (thorough)
+      ts == IF cfg.via = "rpOIDC" THEN (IF Tier = "quick" THEN d1 ELSE d2)
+            ELSE IF Tier = "quick" \/ cfg \notin NearCfgs THEN d2 ELSE Dev1(d2) IN
   {[tok |-> t, cfg |-> cfg] : t \in ts}
 
 -----------------------------------------------------------------------------
